@@ -266,7 +266,7 @@ def unit(mode):
     from . import arksqrt as _ak
     _P = fq["P"]
     _sk = dict(G=pow(_ak.ZETA, (_P - 1) >> 47, _P), M=(_P - 1) >> 47, ZZ=_ak._zz_from_source())
-    more = [("ladder_lemmas.rs", None), ("pow_lemmas.rs", None), ("sarkar_lemmas.rs", _sk), ("ts_lemmas.rs", None), ("isqrt_unique.rs", None)] if sound else []
+    more = [("ladder_lemmas.rs", None), ("pow_lemmas.rs", None), ("sarkar_lemmas.rs", _sk), ("ts_lemmas.rs", None), ("isqrt_unique.rs", None)]
     u = Unit(name=f"r1cs_{mode}", preludes=base_preludes() + [("curve_spec.rs", None), ("r1cs.rs", None)] + more,
              items=items, lemmas=lem + R1CS_LEMMAS + (COMPL_LEMMAS if not sound else ""), params=fq, global_subst=common_subst)
     u.raw = [(INN, "struct", "ElementVar")]
